@@ -18,7 +18,26 @@ import (
 // Time.ZoneBounds and prints after the answer:   [result…] ; <initial offset> <t1> <o1> <t2> <o2> …
 // time.Local is the zone of the line (the helpers that take wall-clock hours read it).
 
+// Suite `dst` stays 30 days away from shifts that skip a local midnight (America/Sao_Paulo and Pacific/Apia
+// spring forward at 00:00, Australia/Lord_Howe did once in 1981); suite `dstm` looks at exactly those
+// shifts, where the known finding C19-day-without-midnight applies.
 var dstZones = []string{"America/New_York", "Europe/Berlin", "Australia/Lord_Howe", "America/Sao_Paulo", "Pacific/Apia"}
+
+// skipsMidnight: the wall-clock stretch skipped by the shift at `tr` contains a 00:00:00.
+func skipsMidnight(tr time.Time) bool {
+	o1, o2 := int64(offsetOf(tr.Add(-time.Second))), int64(offsetOf(tr))
+	lo, hi := tr.Unix()+o1, tr.Unix()+o2
+	return lo < hi && floorDiv(hi-1, 86400) != floorDiv(lo-1, 86400)
+}
+
+func nearAny(ts []time.Time, t time.Time, d time.Duration) bool {
+	for _, x := range ts {
+		if t.After(x.Add(-d)) && t.Before(x.Add(d)) {
+			return true
+		}
+	}
+	return false
+}
 
 var locCache = map[string]*time.Location{}
 
@@ -91,7 +110,7 @@ func (r *dstRunner) Step(t []string) string {
 		return one(chrono.GetEndOfWeek(x, time.Weekday(v[0]))) + tail()
 	case t[0] == "rsow" && len(v) == 2:
 		return one(chrono.GetRelativeStartOfWeek(x, time.Weekday(v[0]), v[1])) + tail()
-	case t[0] == "next" && len(v) == 3:
+	case (t[0] == "next" || t[0] == "nextx") && len(v) == 3:
 		return one(chrono.GetNextMoment(x, v[0], v[1], v[2])) + tail()
 	case t[0] == "windowweek" && len(v) == 0:
 		return fmtPeriod(chrono.NewPeriodWindowWeek(x)) + tail()
@@ -176,10 +195,16 @@ func dstOps(g *gen, acc map[string][]string, zone string, t time.Time, full bool
 	loc := loadZone(zone)
 	if loc != nil {
 		lt := t.In(loc)
-		h, m, s := g.randHMS()
-		add("next", fmt.Sprintf("%d %d %d", h, m, s))
-		add("next", fmt.Sprintf("%d %d %d", lt.Hour(), lt.Minute(), lt.Second()))
-		add("next", fmt.Sprintf("%d %d %d", g.rng.Range(0, 4), g.rng.Intn(60), g.rng.Intn(60)))
+		addNext := func(h, m, s int) {
+			op := "next"
+			if irregularRequest(loc, t, h, m, s) {
+				op = "nextx"
+			}
+			add(op, fmt.Sprintf("%d %d %d", h, m, s))
+		}
+		addNext(g.randHMS())
+		addNext(lt.Hour(), lt.Minute(), lt.Second())
+		addNext(g.rng.Range(0, 4), g.rng.Intn(60), g.rng.Intn(60))
 	}
 	dl := []time.Duration{time.Second, time.Hour, 23 * time.Hour, 24 * time.Hour, 25 * time.Hour, 6 * 24 * time.Hour, 7 * 24 * time.Hour, 30 * 24 * time.Hour}[g.rng.Intn(8)]
 	if g.rng.Bool() {
@@ -188,7 +213,56 @@ func dstOps(g *gen, acc map[string][]string, zone string, t time.Time, full bool
 	add("same", instantOf(t.Add(dl)))
 }
 
-var dstOpNames = []string{"sod", "eod", "sow", "eow", "rsow", "next", "same", "windowweek"}
+var dstOpNames = []string{"sod", "eod", "sow", "eow", "rsow", "next", "nextx", "same", "windowweek"}
+
+// irregularRequest: does the wall-clock time h:m:s fall, on the local date of `now` or the next one,
+// into the stretch of wall-clock time that a shift skips or repeats?  (Input classification only: such
+// requests are emitted as `nextx` so that the known finding about them is matched on them alone; the
+// judge decides both kinds with the same predicate and does its own labelling.)
+func irregularRequest(loc *time.Location, now time.Time, h, m, s int) bool {
+	x := now.Add(-3 * 24 * time.Hour).In(loc)
+	ly, lm, ld := now.In(loc).Date()
+	today := time.Date(ly, lm, ld, 0, 0, 0, 0, time.UTC).Unix() / 86400
+	want := int64(h*3600 + m*60 + s)
+	for i := 0; i < 8; i++ {
+		_, e := x.ZoneBounds()
+		if e.IsZero() || e.After(now.Add(4*24*time.Hour)) {
+			break
+		}
+		o1, o2 := int64(offsetOf(e.Add(-time.Second))), int64(offsetOf(e))
+		lo, hi := e.Unix()+o1, e.Unix()+o2 // wall-clock seconds shown just before / from the shift on
+		if lo > hi {
+			lo, hi = hi, lo
+		}
+		// wall-clock seconds in [lo, hi) are skipped (clocks forward) or shown twice (clocks back)
+		for d := floorDiv(lo, 86400); d <= floorDiv(hi-1, 86400); d++ {
+			if d != today && d != today+1 {
+				continue
+			}
+			a, b := lo, hi
+			if a < d*86400 {
+				a = d * 86400
+			}
+			if b > (d+1)*86400 {
+				b = (d + 1) * 86400
+			}
+			if want >= a-d*86400 && want < b-d*86400 {
+				return true
+			}
+		}
+		x = e
+	}
+	return false
+}
+
+func floorDiv(a, b int64) int64 {
+	q := a / b
+	if a%b != 0 && (a < 0) != (b < 0) {
+		q--
+	}
+	return q
+}
+func floorMod(a, b int64) int64 { return a - floorDiv(a, b)*b }
 
 func (g *gen) emitByOp(acc map[string][]string) {
 	for _, op := range dstOpNames {
@@ -197,6 +271,14 @@ func (g *gen) emitByOp(acc map[string][]string) {
 }
 
 func dstGen(rng *proto.RNG, tier string, shard, nshards int, w *bufio.Writer) {
+	dstGenZones(false, rng, tier, shard, nshards, w)
+}
+
+func dstmGen(rng *proto.RNG, tier string, shard, nshards int, w *bufio.Writer) {
+	dstGenZones(true, rng, tier, shard, nshards, w)
+}
+
+func dstGenZones(midnight bool, rng *proto.RNG, tier string, shard, nshards int, w *bufio.Writer) {
 	g := &gen{rng: rng, w: w, shard: shard, nshards: nshards}
 	perZone, nRandom := 24, 40
 	if tier == "thorough" {
@@ -208,7 +290,22 @@ func dstGen(rng *proto.RNG, tier string, shard, nshards int, w *bufio.Writer) {
 			g.emit([]string{fmt.Sprintf("sod %s 0", zone)}) // answers err:nozone, which the judge rejects
 			continue
 		}
-		trs := transitionsOf(loc)
+		all := transitionsOf(loc)
+		var trs, skipping []time.Time
+		for _, tr := range all {
+			if skipsMidnight(tr.In(loc)) {
+				skipping = append(skipping, tr)
+			}
+		}
+		for _, tr := range all {
+			if midnight == nearAny(skipping, tr, 30*24*time.Hour) {
+				trs = append(trs, tr)
+			}
+		}
+		if midnight {
+			trs = skipping
+			nRandom = 0
+		}
 		// (a) around transitions: the days before/after and the hours right at the shift
 		step := 1
 		if len(trs) > perZone {
@@ -245,7 +342,7 @@ func dstGen(rng *proto.RNG, tier string, shard, nshards int, w *bufio.Writer) {
 			acc := map[string][]string{}
 			for j := 0; j < 6; j++ {
 				t := time.Unix(int64(g.rng.Range(0, 2145916800)), int64(g.rng.Intn(2))*int64(g.rng.Intn(1000000000)))
-				if skipDst(zone, t) {
+				if skipDst(zone, t) || nearAny(skipping, t, 30*24*time.Hour) {
 					continue
 				}
 				dstOps(g, acc, zone, t, g.rng.Intn(8) == 0)
@@ -257,4 +354,5 @@ func dstGen(rng *proto.RNG, tier string, shard, nshards int, w *bufio.Writer) {
 
 func init() {
 	proto.Register(&proto.Suite{Name: "dst", Gen: dstGen, New: func() proto.Runner { return &dstRunner{} }})
+	proto.Register(&proto.Suite{Name: "dstm", Gen: dstmGen, New: func() proto.Runner { return &dstRunner{} }})
 }
